@@ -613,6 +613,14 @@ func buildSetEvents(id string, task *Task, updates map[string]string, agentID st
 		stateWasSet = true
 	}
 
+	// Clearing the claim without changing state must still leave a legal (state, claim) pair:
+	// doing/error require a claim.
+	if claimWasSet && claimValue == "" && !stateWasSet {
+		if err := validateClaimInvariant(task.State, ""); err != nil {
+			return nil, nil, err
+		}
+	}
+
 	// If claim was set to a non-empty value and state wasn't explicitly set, default to doing
 	if claimWasSet && claimValue != "" && !stateWasSet {
 		// The implied doing is a state change like any other: it must be a legal transition.
